@@ -243,4 +243,48 @@ theorem std_inner_product_homogeneous (a : K) (u z z' : Vec K) :
 
 end second
 
+/-! ### non-vacuity (second package): the exact matrix preconditioner `M₀ = A₀⁻¹`, `f = (3, 4)`, `x₀ = 0`, so that
+`⟨r₀,r₀⟩ = 25`, with a `sqrt` that is exact on the two numbers it meets (`25 ↦ 5`, `0 ↦ 0`) -/
+section nonvacuous2
+
+private def sqrt₀ : ℚ → ℚ := fun x => if x = 25 then 5 else 0
+private def gmPrm : GMRES.Params ℚ :=
+  { maxiter := 5, tol := 1/100, abstol := 0, nsSearch := false, M := 3, pside := .right }
+private def fgPrm : FGMRES.Params ℚ := { maxiter := 5, tol := 1/100, abstol := 0, nsSearch := false, M := 3 }
+
+example : sqrt₀ (stdIp (residual #[3, 4] A₀ #[0, 0]) (residual #[3, 4] A₀ #[0, 0]))
+    * sqrt₀ (stdIp (residual #[3, 4] A₀ #[0, 0]) (residual #[3, 4] A₀ #[0, 0]))
+    = stdIp (residual #[3, 4] A₀ #[0, 0]) (residual #[3, 4] A₀ #[0, 0]) := by decide +kernel
+example : nrmA stdIp sqrt₀ (vclear A₀.nrows) = 0 := by decide +kernel
+example : prologueA gmPrm.nsSearch stdIp sqrt₀ 0 #[3, 4] = .go 5 :=
+  (prologueA_go _ _ _ _ _ _).mpr (Or.inr (by decide +kernel))
+example : 0 < GMRES.epsTol gmPrm 5 ∧ ¬ nrmA stdIp sqrt₀ (residual #[3, 4] A₀ #[0, 0]) < GMRES.epsTol gmPrm 5 := by
+  decide +kernel
+
+example : ∃ x w, GMRES.solve gmPrm stdIp sqrt₀ 0 A₀ P₀ (GMRES.Work.fresh 2) #[3, 4] #[0, 0] = .ok (1, 0, x, w) ∧
+    residual #[3, 4] A₀ x = vclear A₀.nrows := by
+  have h : (match GMRES.solve gmPrm stdIp sqrt₀ 0 A₀ P₀ (GMRES.Work.fresh 2) #[3, 4] #[0, 0] with
+      | .ok (it, res, x, _) => decide (it = 1 ∧ res = 0 ∧ residual #[3, 4] A₀ x = vclear A₀.nrows)
+      | _ => false) = true := by decide +kernel
+  split at h
+  · rename_i it res x w heq
+    obtain ⟨h1, h2, h3⟩ := of_decide_eq_true h
+    subst h1 h2
+    exact ⟨x, w, heq, h3⟩
+  · cases h
+
+example : ∃ x w, FGMRES.solve fgPrm stdIp sqrt₀ 0 A₀ P₀ (FGMRES.Work.fresh 2) #[3, 4] #[0, 0] = .ok (1, 0, x, w) ∧
+    residual #[3, 4] A₀ x = vclear A₀.nrows := by
+  have h : (match FGMRES.solve fgPrm stdIp sqrt₀ 0 A₀ P₀ (FGMRES.Work.fresh 2) #[3, 4] #[0, 0] with
+      | .ok (it, res, x, _) => decide (it = 1 ∧ res = 0 ∧ residual #[3, 4] A₀ x = vclear A₀.nrows)
+      | _ => false) = true := by decide +kernel
+  split at h
+  · rename_i it res x w heq
+    obtain ⟨h1, h2, h3⟩ := of_decide_eq_true h
+    subst h1 h2
+    exact ⟨x, w, heq, h3⟩
+  · cases h
+
+end nonvacuous2
+
 end Amgcl.C05
